@@ -2,6 +2,7 @@
 from .. import scriptprop
 
 ID = "C20"
+GEN = ['Math.lean']   # regenerated kernels this property's theorems are about (tie 4B)
 RULE = ("all values of the 8-bit types for every single-argument function, all 16-bit values for digits10/digitssign10 (thorough; quick: stride + boundaries), "
         "all pairs of 8-bit values on a boundary-dense grid for compare/less/min/max, triples for clamp, boundary-dense 32/64-bit samples (0, +-1, 10^k, 10^k+-1, extremes), "
         "sum/product with wrap-around; non-trivial = every script")
